@@ -65,14 +65,42 @@ def doc_texts(tier, seed):
     for bn, ch in BOUNDARY.items():
         lines = ['**kern\t**text', '*clefG2\t*', '=1\t=1', f'4c\tla{ch}la', '4d\tlu', '==\t==', '*-\t*-']
         out.append((f'boundary-{bn}', lines, 'line-boundary-character-in-cell'))
+    # long files whose lyrics are dense runs of multi-byte characters: whatever block size a reader uses (multiples of 512 up to the file
+    # length), some padding variant puts a block boundary INSIDE a character (see straddled_boundaries in the evidence)
+    for ch, nm in (('ñ', '2-byte'), ('漢', '3-byte'), ('𝄞', '4-byte')):
+        for pad in range(8):
+            lines = ['!!!COM: ' + 'x' * pad, '**kern\t**text', '*clefG2\t*', '=1\t=1']
+            for r in range(100 if tier == 'quick' else 300):
+                lines.append(f'4c\t{ch * 40}')
+                if r % 10 == 9:
+                    lines.append(f'={r // 10 + 2}\t={r // 10 + 2}')
+            lines += ['==\t==', '*-\t*-']
+            out.append((f'long-{nm}-pad{pad}', lines, 'non-ascii-long'))
     out.append(('with-error', ['**kern\t**text', '=1\t=1', '4c\tla', '4zz\tlu', '==\t==', '*-\t*-'], 'ascii'))
     return out
+
+
+def straddled(docs):
+    """for the long non-ASCII documents: how many multiples of 512 (LF text) fall inside a multi-byte character in at least one padding variant"""
+    inside, total = set(), set()
+    for name, lines, flav in docs:
+        if flav != 'non-ascii-long':
+            continue
+        b = ('\n'.join(lines) + '\n').encode('utf-8')
+        fam = name.rsplit('-pad', 1)[0]
+        for off in range(512, len(b), 512):
+            total.add((fam, off))
+            if b[off] & 0xC0 == 0x80:          # a continuation byte starts the next block
+                inside.add((fam, off))
+    return len(inside), len(total)
 
 
 def check_file_api(acc, tmp, name, lines, flav, tier):
     """load == loads, dump == dumps for every line-end / final-newline variant"""
     for en, eol in EOLS.items():
         for final in (True, False):
+            if flav == 'non-ascii-long' and (en == 'CR' or not final):
+                continue
             text = eol.join(lines) + (eol if final else '')
             case = {'doc': name, 'text': text, 'eol': en, 'final_newline': final, 'flavour': flav}
             p = os.path.join(tmp, 'in', f'{digest((name, en, final))}.krn')
@@ -108,6 +136,8 @@ def check_file_api(acc, tmp, name, lines, flav, tier):
                 continue
             # dump == dumps (incl. missing directories)
             for on, o in OPTS:
+                if flav == 'non-ascii-long' and on not in ('default', 'ekern'):
+                    continue
                 kw = kw_of(o)
                 try:
                     s = kp.dumps(d2, **kw)
@@ -158,7 +188,7 @@ def check_cli(acc, tmp, docs, src, tier):
     # ---- single-file mode --------------------------------------------------------------------------
     root = os.path.join(tmp, 'single')
     os.makedirs(os.path.join(root, 'o'))
-    singles = names[:3 if tier == 'quick' else 10]
+    singles = names[:3 if tier == 'quick' else 10] + [n for n in names if n.startswith('long-') and n.endswith(('pad1', 'pad2'))][:2 if tier == 'quick' else 6]
     for i, n in enumerate(singles):
         for with_out in (False, True):
             src_p = os.path.join(root, f's{i}_{int(with_out)}.krn')
@@ -280,6 +310,10 @@ def run(ctx):
     ctx.assumptions = ['UTF-8 preferred encoding (PYTHONUTF8=1 for the checks and for the CLI subprocesses)',
                        'the ekern->kern converter reads in text mode, so its input is compared after universal-newline translation',
                        'CLI --output_path directories exist (only dump is claimed to create missing directories)']
+    ins, tot = straddled(docs)
+    ctx.bounds['block_boundaries_inside_a_multibyte_character'] = f'{ins} of {tot} multiples of 512 in the long documents (3 character widths)'
+    if ins < tot:
+        ctx.caps.append(f'long non-ASCII documents: only {ins} of {tot} block boundaries fall inside a character in some padding variant')
     tmp = tempfile.mkdtemp(prefix='kv20_')
     try:
         for name, lines, flav in docs:
